@@ -243,3 +243,57 @@ def clip_binning(ctx, nn, spacing, obs3=False):
     for j in range(nobs):
         covered = ctx.and_(ctx.le(e_full[0], obs[j] - ow[j] / 2), ctx.le(obs[j] + ow[j] / 2, e_full[-1]))
         ctx.goal('same_binned_value[%d]' % j, ctx.implies(covered, ctx.eq(sub[j], full[j], scale=None if ctx.sym else 1.0)))
+
+
+@harness('C13', 'two_molecules', quick=[dict(na=4, nb=3)], thorough=[dict(na=4, nb=3), dict(na=5, nb=3), dict(na=4, nb=4)],
+         functions=FUNCS + ['taurex.contributions.absorption:AbsorptionContribution.prepare_each'], stubs=STUBS, shard_depth=6, max_paths=60000,
+         covers=['edge_between_nodes'],
+         outside=['more than two molecules'])
+def two_molecules(ctx, na, nb):
+    """Real AbsorptionContribution.prepare + real Opacity.opacity for two molecules with DIFFERENT native grids (A: the
+    model's native grid, B: a coarser symbolic grid spanning it): the weighted opacity prepared on a contiguous
+    sub-range of the model grid equals, at every point of the sub-range, the one prepared on the full grid."""
+    import taurex.contributions.absorption as ab
+    from taurex.cache import GlobalCache
+    from .c03 import _Chem, _Cache
+    A = ctx.increasing('A', na, gt=0)
+    B = ctx.increasing('B', nb, gt=0)
+    # B shares the end points of A and is coarser inside, so the full-grid computation is well defined
+    ctx.assume(ctx.and_(ctx.eq(B[0], A[0]), ctx.eq(A[na - 1], B[nb - 1])))
+    ka = ctx.reals('ka', na, ge=0, hint=(0, 5))
+    kb = ctx.reals('kb', nb, ge=0, hint=(0, 5))
+    mix = {'A': oarr([1.0], ctx.sym), 'B': oarr([1.0], ctx.sym)}
+    opA = _opacity_double(ctx, A, ka)
+    opB = _opacity_double(ctx, B, kb)
+    cache = _Cache({'A': opA, 'B': opB})
+
+    class _Model(object):
+        nLayers = 1
+        chemistry = _Chem(['A', 'B'], [], mix)
+        temperatureProfile = np.array([1000.0])
+        pressureProfile = np.array([1e4])
+    GlobalCache()['opacity_method'] = None
+    sub = A[1:na - 1].copy()
+    with patched(ab, OpacityCache=cache, KTableCache=cache):
+        c = ab.AbsorptionContribution()
+        c.prepare(_Model(), A.copy())
+        full = np.array(c.sigma_xsec, dtype=object if ctx.sym else float).copy()
+        try:
+            c.prepare(_Model(), sub)
+            part = np.array(c.sigma_xsec, dtype=object if ctx.sym else float).copy()
+        except ValueError as ex:
+            part = None
+
+    # region of the recorded finding: an end point of the sub-range lies strictly between two nodes of molecule B
+    def strictly_between(x):
+        return ctx.or_([ctx.and_(ctx.lt(B[j], x), ctx.lt(x, B[j + 1])) for j in range(nb - 1)])
+    edge = ctx.or_(strictly_between(sub[0]), strictly_between(sub[-1]))
+    ctx.region('subrange_end_between_other_grid_nodes', edge)
+    ctx.cover_if('edge_between_nodes', edge)
+    ctx.cover_if('edge_on_node', ctx.not_(edge))
+    if part is None:
+        ctx.goal('same_at_shared_point[exception]', False)
+        return
+    ctx.goal('shapes', full.shape == (1, na) and part.shape == (1, na - 2))
+    for i in range(na - 2):
+        ctx.goal('same_at_shared_point[%d]' % i, ctx.eq(part[0, i], full[0, i + 1]))
